@@ -283,6 +283,9 @@ func (it *indexedMessageIterator) loadChunk(chunkIndex *ChunkIndex) error {
 		if err != nil {
 			return fmt.Errorf("failed to decode chunk data: %w", err)
 		}
+		if uint64(len(chunkSlot.buf)) != bufSize {
+			return fmt.Errorf("decoded chunk data is %d bytes, expected uncompressed size %d", len(chunkSlot.buf), bufSize)
+		}
 	case CompressionLZ4:
 		if it.lz4Reader == nil {
 			it.lz4Reader = lz4.NewReader(bytes.NewReader(parsedChunk.Records))
